@@ -493,8 +493,30 @@ func vmemAlloc() uint64 {
 func vdecodeMeasured(dec func([]byte, int16) (reflect.Value, error), data []byte, ver int16) (v reflect.Value, err error, alloc uint64) {
 	before := vmemAlloc()
 	err = vguard(func() (e error) { v, e = dec(data, ver); return })
+	if err == nil && v.IsValid() {
+		// what a consumer asks of every record set it has decoded (records.go): part of reading the data
+		if perr := vguard(func() error { vreadRecordSets(v); return nil }); perr != nil {
+			err = perr
+		}
+	}
 	alloc = vmemAlloc() - before
 	return
+}
+
+// vreadRecordSets calls the accessors of Records the consumer calls on every decoded fetch block.
+func vreadRecordSets(v reflect.Value) {
+	vvisitAll(v, func(x reflect.Value) {
+		if x.Type() != vtRecords || !x.CanAddr() {
+			return
+		}
+		r := x.Addr().Interface().(*Records)
+		_, _ = r.numRecords()
+		_, _ = r.isPartial()
+		_, _ = r.isOverflow()
+		if c, e := r.isControl(); e == nil && c {
+			_, _ = r.getControlRecord()
+		}
+	})
 }
 
 // VerifC10RunUnit executes the cases of a unit starting at case index `from`, leaving out the indices in skip (cases
@@ -635,6 +657,30 @@ func vc10seeds(u *vc10unit) (seeds []*vc10seed, engErr string) {
 	switch {
 	case u.mode == "base":
 		ids = append(ids, base)
+		// two deviations at once that belong together: a control batch (attribute bit) that carries no record at all
+		_, slots := vbuild(u.fam.Type, cfg, nil)
+		for a, sa := range slots {
+			if sa.owner != "RecordBatch.Control" {
+				continue
+			}
+			for b, sb := range slots {
+				if sb.path != strings.TrimSuffix(sa.path, "Control")+"Records" {
+					continue
+				}
+				for ai, aa := range sa.alts {
+					if aa.val.Kind() != reflect.Bool || !aa.val.Bool() {
+						continue
+					}
+					for bi, ba := range sb.alts {
+						if ba.name == "empty" {
+							c := base
+							c.devs = [][2]int{{a, ai}, {b, bi}}
+							ids = append(ids, c)
+						}
+					}
+				}
+			}
+		}
 	case strings.HasPrefix(u.mode, "slot:"):
 		si, err := strconv.Atoi(u.mode[5:])
 		_, slots := vbuild(u.fam.Type, cfg, nil)
@@ -670,6 +716,10 @@ func (s *vc10seed) prepare(u *vc10unit) bool {
 	s.prepared = true
 	_, dec := u.fam.encdec(u.fam.Cfgs[u.cfg])
 	v, err, _ := vdecodeMeasured(dec, append([]byte{}, s.data...), u.ver)
+	if _, panicked := err.(*vpanic); panicked {
+		s.usable = true // reading a VALID encoding panics: the unmutated seed is a case of its own and reports it
+		return true
+	}
 	if err != nil {
 		return false
 	}
